@@ -6,6 +6,7 @@ import (
 	"go/token"
 	"go/types"
 	"os"
+	"strconv"
 	"strings"
 	"sync"
 	"time"
@@ -65,6 +66,7 @@ type Interp struct {
 	BaseHeap map[int]Value
 
 	havocBlock *ssa.BasicBlock
+	baseMax    int
 
 	Obligations []*Obligation
 	Done        []*State
@@ -94,6 +96,12 @@ func New(prog *ssa.Program, pkgs []*ssa.Package, cfg Config) *Interp {
 	}
 	if in.Cfg.Workers == 0 {
 		in.Cfg.Workers = 8
+	}
+	if n, err := strconv.Atoi(os.Getenv("BMSYM_WORKERS")); err == nil && n > 0 {
+		in.Cfg.Workers = n
+	}
+	if os.Getenv("BMSYM_NOFEAS") != "" {
+		in.Cfg.NoFeasCheck = true
 	}
 	if os.Getenv("BMSYM_TRACE") != "" {
 		in.Cfg.Trace = true
@@ -155,6 +163,7 @@ func (in *Interp) InitGlobals() error {
 		st.Status = Running
 	}
 	in.BaseHeap = st.Heap
+	in.baseMax = in.nextObj
 	in.Done = nil
 	in.Obligations = nil
 	return nil
@@ -233,6 +242,12 @@ func (in *Interp) Explore(init *State) ([]*State, error) {
 				work = append(work, spawned...)
 				if st.Status != Running {
 					done = append(done, st)
+					if os.Getenv("BMSYM_PROGRESS") == "2" {
+						fmt.Fprintf(os.Stderr, "end s%d: status=%d %s depth=%d pc=%d\n", st.ID, st.Status, st.Reason, st.Depth, len(st.PC))
+					}
+					if os.Getenv("BMSYM_PROGRESS") != "" && len(done)%50 == 0 {
+						fmt.Fprintf(os.Stderr, "progress: %d paths done, %d queued, stats %+v\n", len(done), len(work), in.Stats)
+					}
 				}
 				if in.Cfg.MaxStates > 0 && len(done) > in.Cfg.MaxStates && firstEr == nil {
 					firstEr = fmt.Errorf("state limit %d exceeded", in.Cfg.MaxStates)
@@ -349,14 +364,14 @@ func (in *Interp) apply(st *State, instr ssa.Instruction, a Alt) {
 
 // feasible asks whether pc ∧ c is satisfiable; unknown counts as feasible.
 func (in *Interp) feasible(st *State, c *smt.Term) bool {
-	if in.Cfg.NoFeasCheck {
-		return true
-	}
 	full := smt.And(append(append([]*smt.Term{}, st.PC...), c)...)
 	if full.IsFalse() {
 		return false
 	}
 	if full.IsTrue() {
+		return true
+	}
+	if in.Cfg.NoFeasCheck {
 		return true
 	}
 	in.mu.Lock()
@@ -459,6 +474,13 @@ func (in *Interp) jump(st *State, fr *Frame, to *ssa.BasicBlock) {
 				vals[phi] = hv
 			}
 			st.Ghost["loopInit"] = init
+			// the destination buffer of sanitizeWithBuff holds whatever earlier
+			// iterations wrote: havoc it too
+			for id, cell := range st.Heap {
+				if _, ok := cell.(*BufObj); ok && id > in.baseMax {
+					st.Heap[id] = &BufObj{S: st.fresh("pre.buffer", smt.String)}
+				}
+			}
 			for p, v := range vals {
 				fr.Env[p] = v
 			}
@@ -578,7 +600,7 @@ func (in *Interp) safety(st *State, cond *smt.Term, id string) bool {
 	if cond.IsTrue() {
 		return true
 	}
-	ob := &Obligation{ID: id, Kind: "safety", PC: append([]*smt.Term(nil), st.PC...), Cond: cond, Where: in.where(st), PathID: st.ID, Ghost: st.Ghost}
+	ob := &Obligation{ID: id, Kind: "safety", PC: append([]*smt.Term(nil), st.PC...), Cond: cond, Where: in.where(st), PathID: st.ID, Ghost: st.Ghost, Pre: st.LoopPre}
 	in.mu.Lock()
 	in.Obligations = append(in.Obligations, ob)
 	in.mu.Unlock()
